@@ -175,7 +175,7 @@ theorem importsLoop_print (is : List Import) (hw : is.all importWf = true) :
 /-! ### definitions and value references -/
 
 theorem readDefinition_print (d : UDefinition) (fuel : Nat) (rest : List Token)
-    (hw : definitionWf d = true) (hnw : tyNoWiden d.ty = true) (hk : tyNoKwRef d.ty = true)
+    (hw : definitionWf d = true) (hnw : tyNoWiden d.ty = true)
     (hr : RestOk rest) (hf : (tyTail d.ty).length < fuel) :
     readDefinition fuel d.name
         (.sep ':' :: .sep ':' :: .sep '=' :: (printTag d.tag ++ (printTy d.ty ++ rest))) =
@@ -183,21 +183,21 @@ theorem readDefinition_print (d : UDefinition) (fuel : Nat) (rest : List Token)
   simp only [definitionWf, Bool.and_eq_true] at hw
   simp only [readDefinition, nextSepEq_cons, eqSep_sep, beq_self_eq_true, if_true, FR.bind_ok,
     printTy, List.cons_append, nextWithOptTag_print d.tag hw.1.2 (tyHead d.ty),
-    parseRoleGiven_print d.ty fuel rest hw.2 hnw hk hr hf]
+    parseRoleGiven_print d.ty fuel rest hw.2 hnw hr hf]
   rfl
 
 theorem restOk_colon (r : List Token) : RestOk (.sep ':' :: r) :=
   RestOk.sep _ _ (by decide) (by decide)
 
 theorem readValueReference_print (v : UValueReference) (fuel : Nat) (rest : List Token)
-    (hw : valueReferenceWf v = true) (hnw : tyNoWiden v.ty = true) (hk : tyNoKwRef v.ty = true)
+    (hw : valueReferenceWf v = true) (hnw : tyNoWiden v.ty = true)
     (hf : (tyTail v.ty).length < fuel) :
     readValueReference fuel v.name
         (printTy v.ty ++ (.sep ':' :: .sep ':' :: .sep '=' :: (printLit v.value ++ rest))) =
       .ok (⟨v.name, canonTy v.ty, v.value⟩, rest) := by
   simp only [valueReferenceWf, Bool.and_eq_true] at hw
   simp only [readValueReference, parseRole, printTy, List.cons_append, nextTextOrErr_text,
-    FR.bind_ok, parseRoleGiven_print v.ty fuel _ hw.1.2 hnw hk (restOk_colon _) hf, nextSepEq_cons,
+    FR.bind_ok, parseRoleGiven_print v.ty fuel _ hw.1.2 hnw (restOk_colon _) hf, nextSepEq_cons,
     eqSep_sep, beq_self_eq_true, if_true, readLiteral_print v.value hw.2 rest]
   rfl
 
